@@ -32,6 +32,16 @@ def assigned_expr(fn, var):
     return out
 
 
+def recursive_call_names(fn, method):
+    """names of the locals that the directory walk of Client.<method> hands to its recursive call
+    `self.<method>(<entry>, <place>, write_into=True, ...)` - read from the AST, so that renaming them is harmless"""
+    for n in ast.walk(fn):
+        if isinstance(n, ast.Call) and isinstance(n.func, ast.Attribute) and n.func.attr == method and isinstance(n.func.value, ast.Name) and n.func.value.id == "self" and len(n.args) >= 2:
+            if isinstance(n.args[0], ast.Name) and isinstance(n.args[1], ast.Name):
+                return n.args[0].id, n.args[1].id
+    raise Unsupported(f"Client.{method}: recursive call `self.{method}(<entry>, <place>, ...)` with two plain names not found")
+
+
 def mk_path(u, tag, anchor):
     ps = fresh_seq(tag)
     u.assume(models_path.all_clean(u.it, ps, tag))
@@ -43,9 +53,10 @@ def setup_upload_placement(u):
     an arbitrary source directory, an arbitrary entry `path` below it and an arbitrary destination"""
     it = u.it
     fn = find_fn(it, "upload")
-    rel_assigns = assigned_expr(fn, "relative")
+    ENTRY, PLACE = recursive_call_names(fn, "upload")
+    rel_assigns = assigned_expr(fn, PLACE)
     if len(rel_assigns) not in (1, 2):
-        raise Unsupported("Client.upload: expected one or two assignments to `relative` in the directory walk")
+        raise Unsupported(f"Client.upload: expected one or two assignments to `{PLACE}` in the directory walk")
     write_into = u.choose(2, "write_into") == 1
     source = mk_path(u, "source", "/")
     u.assume(z3.Length(source.parts) >= 1)
@@ -56,7 +67,8 @@ def setup_upload_placement(u):
     dest_in = mk_path(u, "dest", ["", "/"][u.choose(2, "destination-absolute")])
     # the real prologue: `if not write_into: destination = destination / source.name`
     env = Env(it.modules[CLIENT].env)
-    env.vars.update(source=source, destination=dest_in, write_into=write_into, path=path)
+    env.vars.update(source=source, destination=dest_in, write_into=write_into)
+    env.vars[ENTRY] = path
     dest_assigns = [n for n in assigned_expr(fn, "destination") if isinstance(n.value, ast.BinOp)]
     if len(dest_assigns) != 1:
         raise Unsupported("Client.upload: expected `destination = destination / source.name`")
@@ -94,9 +106,10 @@ c.ensures(upload_placement_post, "entry-is-placed-at-destination-joined-with-its
 def setup_download_placement(u):
     it = u.it
     fn = find_fn(it, "download")
-    full_assigns = assigned_expr(fn, "full")
+    ENTRY, PLACE = recursive_call_names(fn, "download")
+    full_assigns = assigned_expr(fn, PLACE)
     if len(full_assigns) != 1:
-        raise Unsupported("Client.download: expected one assignment to `full`")
+        raise Unsupported(f"Client.download: expected one assignment to `{PLACE}`")
     write_into = u.choose(2, "write_into") == 1
     source = mk_path(u, "source", ["", "/"][u.choose(2, "source-absolute")])
     u.assume(z3.Length(source.parts) >= 1)
@@ -106,7 +119,8 @@ def setup_download_placement(u):
     name = PathVal("posix", source.anchor, z3.Concat(source.parts, below), abs_known=source.abs_known)
     dest_in = mk_path(u, "dest", ["", "/"][u.choose(2, "destination-absolute")])
     env = Env(it.modules[CLIENT].env)
-    env.vars.update(source=source, destination=dest_in, write_into=write_into, name=name)
+    env.vars.update(source=source, destination=dest_in, write_into=write_into)
+    env.vars[ENTRY] = name
     dest_assigns = [n for n in assigned_expr(fn, "destination") if isinstance(n.value, ast.BinOp)]
     if not write_into:
         env.vars["destination"] = it.eval(dest_assigns[0].value, env)
